@@ -248,7 +248,14 @@ int main()
     }
     Channel* ch = conn->channel_.get();
     bool reg = ch->addedToLoop_;
-    if (k == "EST")
+    static const char* kUserOps[] = {"SEND", "FSC", "FSE", "RET", "SHUT", "XSHUT", "FC", "FCD", "SR", "SP", "XSR", "XSP"};
+    bool userOp = false;
+    for (size_t u = 0; u < sizeof kUserOps / sizeof kUserOps[0]; ++u) userOp = userOp || k == kUserOps[u];
+    if (userOp && conn->state_ == TcpConnection::kConnecting)
+    {
+      rejected = true;   // a user only gets hold of the connection in the UP callback
+    }
+    else if (k == "EST")
     {
       if (conn->state_ == TcpConnection::kConnecting) conn->connectEstablished(); else rejected = true;
     }
